@@ -25,6 +25,9 @@ type c09Fault struct {
 type c09Case struct {
 	Shape  []int      `json:"shape"`
 	Faults []c09Fault `json:"faults"`
+	// N[i] is the count argument of attempt i (ExecuteN(n): at most n pending files; 0 = all). The
+	// final clean attempt always runs everything.
+	N []int `json:"n,omitempty"`
 }
 
 func init() {
@@ -89,7 +92,11 @@ func c09Run(cs c09Case) (why, key string, trace []string) {
 			return "NewExecutor: " + err.Error(), "newexecutor", nil
 		}
 		var rerr error
-		if p, val, st := rt.Try(func() { rerr = ex.ExecuteN(context.Background(), 0) }); p {
+		nArg := 0
+		if ai < len(cs.N) && ai < len(attempts)-1 {
+			nArg = cs.N[ai]
+		}
+		if p, val, st := rt.Try(func() { rerr = ex.ExecuteN(context.Background(), nArg) }); p {
 			return fmt.Sprintf("attempt %d: panic %v", ai, val), rt.PanicKey(st), nil
 		}
 		firstExec := true
@@ -222,6 +229,13 @@ func runC09(c *rt.Ctx) {
 		for _, f1 := range fs {
 			for _, f2 := range fs {
 				cases = append(cases, c09Case{Shape: sh, Faults: []c09Fault{f1, f2}})
+				// apply-with-count attempts: one file at a time, or one then two
+				if len(sh) >= 2 {
+					cases = append(cases, c09Case{Shape: sh, Faults: []c09Fault{f1, f2}, N: []int{1, 1}})
+					if len(sh) >= 3 {
+						cases = append(cases, c09Case{Shape: sh, Faults: []c09Fault{f1, f2}, N: []int{1, 2}})
+					}
+				}
 			}
 		}
 		if !c.Quick() && n <= 5 {
